@@ -336,6 +336,12 @@ var entryPoints = []entryPoint{
 	{"NewObjectFrom", func(v any) slot { return slot{o: at.NewObjectFrom(map[string]any{"k": v}), key: "k"} }},
 	{"Set", func(v any) slot { return slot{o: at.NewObject().Set("k", v), key: "k"} }},
 	{"Set-overwrite", func(v any) slot { return slot{o: at.NewObject("k", "old").Set("k", v), key: "k"} }},
+	{"Set-overwrite-among-new-keys", func(v any) slot {
+		return slot{o: at.NewObject("k", "old").Set("a", 1, "k", v, "b", 2, "c", 3), key: "k"}
+	}},
+	{"Set-overwrite-in-a-big-object", func(v any) slot {
+		return slot{o: at.NewObject("k", "old", "p", 1, "q", 2, "r", 3, "s", 4).Set("k", v, "new", 1), key: "k"}
+	}},
 	{"list.Map", func(v any) slot { return slot{l: at.NewList(0).Map(func(int, any) any { return v })} }},
 	{"list.MapValues", func(v any) slot { return slot{l: at.NewList(0).MapValues(func(any) any { return v })} }},
 	{"list.MapInts", func(v any) slot { return slot{l: at.NewList("x", 1).MapInts(func(int) any { return v })} }},
